@@ -8,7 +8,10 @@ import gen_markup
 DOCS = ["<table>leak", "<table>leak&;", "<pre>\nx", "<p>\nx", "<table> <tr><td>x", "<textarea>\n", "<listing>\n",
         "<title>x", "<script>y", "<b><i>x</b>y", "<svg><p>", "<select><table>", "<frameset>", "<!DOCTYPE html>x",
         "<table><caption>c<table>d", "<a><table><a>", "x\x00y", "<plaintext>z", "<math><mi>q", "<noscript>n",
-        "<table><form>f", "<head><base>", "<body><body a=b>", "<html a=b>", "<isindex>", "<textarea>\nt", "\n"]
+        "<table><form>f", "<head><base>", "<body><body a=b>", "<html a=b>", "<isindex>", "<textarea>\nt", "\n",
+        "<p>x<table>", "<p>para<table><tr><td>cell</table>", "<title>old</title><p>no doctype",
+        "<!DOCTYPE html PUBLIC \"-//W3C//DTD HTML 4.01 Transitional//EN\"><p>q<table>", "<!DOCTYPE bogus><p>x<table>y",
+        "<frameset><frame>", "<body><p>a<button>b<p>c<table>", "<form><p>f<table><form>g"]
 
 
 class Raiser(object):
